@@ -861,3 +861,18 @@ BREAKING += [
     ('c01-pack-lambda-kw-swap', ['C01'], [(A, _ENC_ARMS_OLD, _ENC_LAMBDA.replace("aq=aq, rl=rl", "aq=rl, rl=aq"))]),
     ('c01-pack-partial-positional', ['C01'], [(A, _ENC_ARMS_OLD, _ENC_PARTIAL.replace("partial(encode_func, aq=aq, rl=rl)", "partial(encode_func, aq, rl)"))]),
 ]
+
+# ---- round 5: compression predicates - operand value vs inner expression; constants-only evaluation under a handler ----
+_IMMEQ_BODY = ("            if not isinstance(i.imm, Arithmetic):\n                return False\n            try:\n                imm = i.imm.eval(p, constants, i.line)\n"
+               "            except AssemblerError:\n                return False\n            return imm == value\n")
+_STABLE_EVAL = "                return imm.eval(p, constants, i.line)\n            except AssemblerError:\n                return None\n"
+BREAKING += [
+    ('c5-stable-inner-expression', ['C12', 'C20'], [(A, _STABLE_EVAL, _STABLE_EVAL.replace('imm.eval', 'plain.eval'))]),
+    ('c5-immequals-unguarded', ['C12'], [(A, _IMMEQ_BODY, "            return isinstance(i.imm, Arithmetic) and i.imm.eval(p, constants, i.line) == value\n")]),
+    ('c5-immequals-wrong-handler', ['C12'], [(A, _IMMEQ_BODY, _IMMEQ_BODY.replace('except AssemblerError:', 'except KeyError:'))]),
+]
+PRESERVING += [
+    ('p5-immequals-boolop-guarded', None, [(A, _IMMEQ_BODY, "            try:\n                return isinstance(i.imm, Arithmetic) and i.imm.eval(p, constants, i.line) == value\n"
+                                                             "            except AssemblerError:\n                return False\n")]),
+    ('p5-immequals-except-exception', None, [(A, _IMMEQ_BODY, _IMMEQ_BODY.replace('except AssemblerError:', 'except Exception:'))]),
+]
